@@ -318,7 +318,7 @@ def ser(obj):
 
 def exc_info(e):
     code = getattr(e, "grpc_status_code", None)
-    return {"type": type(e).__name__, "mro": [c.__name__ for c in type(e).__mro__][:6], "msg": str(e)[:300],
+    return {"type": type(e).__name__, "mro": [c.__name__ for c in type(e).__mro__][:8], "msg": str(e)[:300],
             "code": getattr(code, "name", None)}
 
 
